@@ -221,7 +221,48 @@ def errchanOutcome : Handler := fun j => do
     | some false => "ok"
   pure (Json.mkObj [("outcome", Json.str r)])
 
+def bits (n : Nat) (f : Node → Bool) : String :=
+  String.ofList ((List.range n).map (fun i => if f i then '1' else '0'))
+
+/-- {"op":"walker.steps", cfg.., "steps":[[n, success],..]} → per step the ready / cancel flags the model
+    predicts after `wake n; cbReturn n r; complete n` and delivery of all pending cancels -/
+def stepsOp : Handler := fun j => do
+  let x ← mkCtx j
+  let steps ← getArr j "steps"
+  let mut s := normalize x (init x.cfg)
+  let mut out : Array Json := #[]
+  for st in steps do
+    let a ← st.getArr?
+    let n ← (a.getD 0 Json.null).getNat?
+    let okb ← (a.getD 1 Json.null).getBool?
+    let r := if okb then Res.ok else Res.fail
+    let run3 : Except String State := do
+      let s1 ← match apply x s (.wake n) with
+        | some s' => pure s'
+        | none => throw s!"wake {n} not enabled in the model"
+      let s2 ← match apply x s1 (.cbReturn n r) with
+        | some s' => pure s'
+        | none => throw s!"cbReturn {n} not enabled"
+      let s3 ← match apply x s2 (.complete n) with
+        | some s' => pure s'
+        | none => throw s!"complete {n} not enabled"
+      x.cfg.sel.foldlM (init := s3) fun s m =>
+        if s.pend m then
+          match apply x s (.deliverCancel m) with
+          | some s' => pure s'
+          | none => throw s!"deliverCancel {m} not enabled"
+        else pure s
+    match run3 with
+    | .error why => return Json.mkObj [("ok", Json.bool false), ("why", Json.str why), ("done", Json.arr out)]
+    | .ok s' =>
+      s := s'
+      let sel := x.cfg.sel
+      out := out.push (Json.arr #[toJson n, Json.bool okb,
+        Json.str (bits x.n (fun i => sel.contains i && s'.ready i)),
+        Json.str (bits x.n (fun i => sel.contains i && s'.cancel i)), Json.bool s'.ff, Json.bool s'.ctx])
+  return Json.mkObj [("ok", Json.bool true), ("steps", Json.arr out)]
+
 def handlers : List (String × Handler) :=
-  [("walker.replay", replay), ("errchan.outcome", errchanOutcome)]
+  [("walker.replay", replay), ("walker.steps", stepsOp), ("errchan.outcome", errchanOutcome)]
 
 end Grog.Drv.Walker
